@@ -1,4 +1,5 @@
 mod big;
+mod book17;
 mod book18;
 mod book20;
 mod book19;
@@ -106,6 +107,7 @@ fn main() {
             let full = argv.get(5).map(|s| s == "full").unwrap_or(false);
             match which {
                 "c13" => native::c13(n, seed, full),
+                "c17" => book17::c17(n, seed),
                 "c18" => book18::c18(),
                 "c20" => book20::c20(n as usize, seed),
                 "c19" => book19::c19(n as usize),
